@@ -461,27 +461,42 @@ def run(tier, seed):
                 skip("garbage work wires")
                 done = True
                 break
-            budget = (60000 if lv == 4 else 16000) if tier == "quick" else 400000
             nw = ntot - n
             zero_like = any(s_.endswith("zero") or s_ == "zero" for s_, _ in dyn.values())
             cs_ = _cols(ntot, nw) if (nw and zero_like) else []
-            if ntot > (5 if tier == "quick" else 6) or (recs is not None and len(recs) * (1 << ntot) * (len(cs_) or (1 << ntot)) > budget):
-                skip("too wide / long")
+            if ntot > (5 if tier == "quick" else 6):
+                skip("too wide")
                 done = True
                 break
             cs = cs_
             if recs is not None:
                 ecases[lv].append({"n": ntot, "a": a, "cs": cs, "bs": [{"b": recs, "rel": case["rel"], "perm": []}]})
-                emeta[lv].append((replay, None, tmeta[-1][2] if obs["est"] is None else [repr(o) for o in out.operations][:60], case["rel"], cs))
+                emeta[lv].append([replay, None, [repr(o) for o in out.operations][:60], case["rel"], cs, flt])
                 done = True
                 break
             if lv == 5:
                 ecases[lv].append({"n": ntot, "a": a, "cs": cs, "bs": [{"b": [], "rel": "emit", "perm": []}]})
-                emeta[lv].append((replay, flt, [repr(o) for o in out.operations][:60], case["rel"], cs))
+                emeta[lv].append([replay, flt, [repr(o) for o in out.operations][:60], case["rel"], cs, flt])
                 done = True
         if not done:
             skip("input not encodable")
     phase["apply"] = round(time.time() - t0 - phase["cfggen"], 1)
+    # ---- cost cap per ring level: one gate on a 2^n x cols block costs n-independent ring products ~ 2^n * cols; the products
+    #      of the M=5 ring are four times dearer than M=4.  The cheapest cases stay exact, the rest of the batch is decided
+    #      numerically against TLC's exact U(in) (counted as bridged)
+    caps = {4: 700000, 5: 140000} if tier == "quick" else {4: 20000000, 5: 5000000}
+    for lv in (4, 5):
+        def cost(i):
+            c_ = ecases[lv][i]
+            return len(c_["bs"][0]["b"]) * (1 << c_["n"]) * (len(c_["cs"]) or (1 << c_["n"]))
+        order = sorted((i for i in range(len(ecases[lv])) if ecases[lv][i]["bs"][0]["rel"] != "emit"), key=cost)
+        acc = 0
+        for i in order:
+            acc += cost(i)
+            if acc > caps[lv]:
+                ecases[lv][i]["bs"] = [{"b": [], "rel": "emit", "perm": []}]
+                emeta[lv][i][1] = emeta[lv][i][5]
+                st["exact_demoted_to_bridge"] = st.get("exact_demoted_to_bridge", 0) + 1
     # ---- negative controls
     neg_t = []
     for i in range(0, len(traces), max(1, len(traces) // 20)):
@@ -552,7 +567,7 @@ def run(tier, seed):
                 if clause != "ok":
                     raise lib.MachineryError(f"a custom decomposition rule of the harness is not exact: {ecases[lv][ti]}")
                 continue
-            replay, flt, outs, relname, cs = m
+            replay, flt, outs, relname, cs, _ = m
             g = ("graph" if replay["config"]["graph"] else "legacy") + (":nullphase" if replay["config"]["custom"] == "nullphase" else "")
             if clause == "overflow":
                 raise lib.MachineryError("ring overflow in CircuitEq")
